@@ -191,3 +191,7 @@ pub use $m::$name;
 } }
 device!(dev_logged, Dev, LogQueue, |log: Log| LogQueue { inner: StaticErrorQueue::new(), log });
 device!(dev_raw, DevRaw, StaticErrorQueue<QCAP>, |_log: Log| StaticErrorQueue::new());
+// the same with the crate's queue at capacities 1, 2 and 5 (C09: "never holds more than its capacity", for every capacity)
+device!(dev_raw1, DevRaw1, StaticErrorQueue<1>, |_log: Log| StaticErrorQueue::new());
+device!(dev_raw2, DevRaw2, StaticErrorQueue<2>, |_log: Log| StaticErrorQueue::new());
+device!(dev_raw5, DevRaw5, StaticErrorQueue<5>, |_log: Log| StaticErrorQueue::new());
